@@ -329,6 +329,37 @@ fn alloc_request_of(p: &PanicRec) -> Option<usize> {
 pub fn judge(entry: usize, b: &[u8], ctx: &mut Ctx) -> Verdict {
     let name = ENTRIES[entry];
     ctx.evals(1);
+    // from here until the verdict the call is "in flight" for the hang watchdog (parse and post phase)
+    rt::hang::arm(name, b);
+    let v = judge_armed(entry, b, ctx);
+    rt::hang::disarm();
+    v
+}
+
+/// Seconds after which a single deserialize call (plus the post phase on its result) that has not returned is
+/// written out as a witness. Inputs are at most a few hundred KiB and a call takes microseconds; the driver
+/// replays the witness alone before calling it a violation.
+pub const HANG_LIMIT_S: u64 = 20;
+
+pub fn start_hang_watchdog(ctx: &Ctx) {
+    let out = match &ctx.out_path {
+        Some(p) => format!("{}.hang.json", p),
+        None => return,
+    };
+    let _ = std::fs::remove_file(&out);
+    let profile = ctx.profile.clone();
+    rt::hang::start_watchdog(std::time::Duration::from_secs(HANG_LIMIT_S), move |entry, input, secs| {
+        let j = Json::obj()
+            .set("property", "C14")
+            .set("signature", format!("C14 | does not return | {}", entry).as_str())
+            .set("message", format!("{} on a {}-byte input (and the use of its result) was still running after {} s", entry, input.len(), secs).as_str())
+            .set("case", Json::obj().set("lane", "replay").set("entry", entry).set("hex", rt::json::hex(input).as_str()).set("profile", profile.as_str()));
+        let _ = std::fs::write(&out, j.dump());
+    });
+}
+
+fn judge_armed(entry: usize, b: &[u8], ctx: &mut Ctx) -> Verdict {
+    let name = ENTRIES[entry];
     let (res, st): (Result<Result<Parsed, ()>, PanicRec>, AllocStats) = rt::with_alloc_monitor(HARD_CAP, || rt::guard(|| parse(entry, b)));
     match res {
         Err(p) => {
@@ -664,6 +695,7 @@ fn report(ctx: &mut Ctx, entry: usize, input: &[u8], sig: String, msg: String, h
 }
 
 pub fn run(ctx: &mut Ctx) {
+    start_hang_watchdog(ctx);
     ctx.note(
         "rule",
         Json::Str(
@@ -731,6 +763,8 @@ pub fn run(ctx: &mut Ctx) {
 }
 
 pub fn replay(ctx: &mut Ctx, case: &Json) {
+    static WATCHDOG: std::sync::Once = std::sync::Once::new();
+    WATCHDOG.call_once(|| start_hang_watchdog(ctx));
     let entry = case.str("entry").and_then(|n| ENTRIES.iter().position(|e| *e == n));
     let bytes = case.str("hex").and_then(unhex);
     match (entry, bytes) {
